@@ -374,6 +374,7 @@ def run(repo: Repo, ctx) -> None:
            'registration test', ns.loc, sample='test dominates construction')
     _r6(repo, ctx)
     _r7(repo, ctx)
+    _r8(repo, ctx)
 
 
 def _r6(repo: Repo, ctx) -> None:
@@ -574,6 +575,104 @@ def _r7(repo: Repo, ctx) -> None:
                        f'query proper', f.loc, sample=k[:60])
     if n_w < 1:
         raise AnalysisError('C07.R7: writers of schema_view_cache not found')
+
+
+def _r8(repo: Repo, ctx) -> None:
+    """When a type gets (its own) rewrite."""
+    ctx.floor('C07.R8', 3)
+    # (a) "this type needs no rewrite" is decided on all its policies
+    ttr = repo.func(f'{QLC}.policies.try_type_rewrite')
+    ctx.saw(ttr)
+    g = CFG(ttr.node)
+    skips = [n for n in g.nodes if n.kind == 'stmt' and isinstance(
+        n.ast, ast.Assign) and norm(n.ast.targets[0]).startswith(
+        'type_rewrites[') and norm(n.ast.value) == 'None']
+    seen = 0
+    for n in skips:
+        # the placeholder written before compiling is not an early exit
+        nxt = [s_ for s_, _l in n.succ]
+        if not any(isinstance(g.nodes[x].ast, ast.Return) for x in nxt):
+            continue
+        tests = [t for t in g.nodes if t.kind == 'test' and (
+            g.edge_dominates(t.id, 'T', n.id))
+            and 'pols' in inline_locals(ttr.node, t.ast)
+            or (t.kind == 'test' and g.edge_dominates(t.id, 'T', n.id)
+                and 'get_access_policies' in inline_locals(ttr.node, t.ast))]
+        for t in tests:
+            seen += 1
+            txt = inline_locals(ttr.node, t.ast)
+            ok = 'get_access_policies(' in txt and \
+                'get_access_kinds' not in txt and 'AccessKind' not in txt
+            ctx.ob('C07.R8', 'try_type_rewrite:no-rewrite-only-without-'
+                   'policies', ok,
+                   f'try_type_rewrite decides that a type needs no rewrite '
+                   f'under `{txt[:90]}`: a type whose policies are all for '
+                   f'other access kinds (allow insert only) must still be '
+                   f'rewritten to the empty default-deny filter, not left '
+                   f'readable', ttr.loc, sample=txt[:80])
+    if not seen:
+        raise AnalysisError('C07.R8: the no-policy early exit of '
+                            'try_type_rewrite not found')
+    # (b) a subtype's policies count as its own unless they come from the
+    #     very type whose filter already covers it
+    hp = repo.func(f'{QLC}.policies.has_own_policies')
+    ctx.saw(hp)
+    loops = [n for n in ast.walk(hp.node) if isinstance(n, ast.For)
+             and 'get_access_policies' in norm(n.iter)]
+    if len(loops) != 1:
+        raise AnalysisError('C07.R8: policy loop of has_own_policies not '
+                            'found')
+    tests = [n for n in ast.walk(loops[0]) if isinstance(n, ast.If)
+             and any(isinstance(x, ast.Return) and norm(x.value) == 'True'
+                     for x in n.body)]
+    ok = bool(tests)
+    for t in tests:
+        txt = norm(t.test)
+        ok = ok and 'skip_from' in txt and 'get_subject' in txt \
+            and 'get_owned' not in txt
+    ctx.ob('C07.R8', 'has_own_policies:relative-to-skip_from', ok,
+           'has_own_policies does not decide by "is this policy inherited '
+           'from skip_from": with several parents a policy inherited from '
+           'another parent is not covered by skip_from\'s filter, so the '
+           'subtype is read through the parent without any policy',
+           hp.loc, sample='skip_from == base.get_subject(schema)')
+    # (c) the recursion guard of rewrite CTEs is scoped by the relation
+    #     context it was added in
+    cl = repo.cls(f'{PGC}.context.CompilerContextLevel')
+    init = cl.methods.get('__init__')
+    gi = CFG(init.node)
+    copies = [n.id for n in gi.nodes if n.kind == 'stmt' and isinstance(
+        n.ast, ast.Assign) and norm(n.ast.targets[0]) ==
+        'self.pending_type_rewrite_ctes'
+        and norm(n.ast.value).startswith('set(')]
+    nr = [t.id for t in gi.nodes if t.kind == 'test'
+          and 'ContextSwitchMode.NEWREL' in norm(t.ast)]
+    ok = bool(copies) and bool(nr) and any(
+        gi.edge_dominates(t, 'T', c) for t in nr for c in copies)
+    adders = []
+    for m in repo.modules_in(PGC):
+        for f in repo._funcs_of(m):
+            for w in ast.walk(f.node):
+                if isinstance(w, ast.With):
+                    for it in w.items:
+                        ce = it.context_expr
+                        if isinstance(ce, ast.Call) and isinstance(
+                                ce.func, ast.Attribute) and isinstance(
+                                it.optional_vars, ast.Name):
+                            v = it.optional_vars.id
+                            for c in ast.walk(w):
+                                if isinstance(c, ast.Call) and norm(
+                                        c.func) == f'{v}.pending_type_' \
+                                        f'rewrite_ctes.add':
+                                    adders.append(ce.func.attr)
+    ctx.ob('C07.R8', 'pending_type_rewrite_ctes:scoped-by-newrel',
+           ok and adders and set(adders) <= {'newrel'},
+           f'the rewrite-recursion guard is added through {sorted(set(adders))} '
+           f'contexts but a NEWREL context does not start from a copy of '
+           f'it: the marker outlives the CTE being built, and every later '
+           f'path to the same type in the query reads the raw table',
+           init.loc, sample='NEWREL: set(prevlevel.pending_type_rewrite_'
+                            'ctes)')
 
 
 def _callers(repo: Repo, pkg: str, name: str):
